@@ -144,6 +144,7 @@ def run(rep, tier, seed, selftest, st):
     agree = 0
     nontrivial = set()
     before = len(rep.violations)
+    real_rep, rep = rep, mu.Pending(rep)
     for case, obs in zip(cases, observations):
         if case["val"] or case.get("ptr"):
             nontrivial.add(canon(case))
@@ -153,9 +154,11 @@ def run(rep, tier, seed, selftest, st):
                            "how": "bin/check C11 --replay <this file>"})
         d = drift(case, obs)
         if d:
-            rep.note_drift("containers %s: %s" % (canon(case), "; ".join(d)))
+            real_rep.note_drift("containers %s: %s" % (canon(case), "; ".join(d)))
         else:
             agree += 1
+    rep.flush()
+    rep = real_rep
     log("[replay] containers: %d cases replayed on the real compiler, %d violations, model agreement %d/%d" %
         (len(cases), len(rep.violations) - before, agree, len(cases)))
     if not model_ok and len(rep.violations) == before and not rep.known_hits:
@@ -193,6 +196,7 @@ def run(rep, tier, seed, selftest, st):
     before = len(rep.violations)
     ok_runs, events, outputs = mu.validate_traces("Trace_Containers", "Trace_Containers_rule.cfg", files, on_stuck)
     bad = [b for o in outputs for b in mu.printed(o, "BAD")]
+    real_rep, rep = rep, mu.Pending(rep)
     for b in bad:
         case = {"kind": b["kind"], "val": b["val"], "ptr": b["ptr"], "perm": b["perm"], "tags": b["tags"],
                 "acc": b["acc"], "m433": b.get("m433", []), "mcrash": b.get("mcrash", False),
@@ -206,6 +210,8 @@ def run(rep, tier, seed, selftest, st):
             rep.violation("containers-trace/" + problem, key_of(case, obs, problem),
                           {"part": "containers-trace", "case": case, "observed": obs, "problem": problem,
                            "message": "TLC (Trace_Containers, rule level) rejects the outcome of this recorded run"})
+    rep.flush()
+    rep = real_rep
     ok_runs -= len(bad)
     strict = common.tlc_traces("Trace_Containers", "Trace_Containers_strict.cfg", files, parallel=8)
     strict_ok = sum(1 for s in strict if s["accepted"])
